@@ -24,7 +24,7 @@ type leanResult struct {
 
 var allowedAxioms = map[string]bool{"propext": true, "Classical.choice": true, "Quot.sound": true}
 
-var theoremRe = regexp.MustCompile(`(?m)^theorem\s+([A-Za-z0-9_.']+)`)
+var theoremRe = regexp.MustCompile(`(?m)^theorem\s+([A-Za-z0-9_.'?!]+)`)
 var forbiddenRe = regexp.MustCompile(`\bsorry\b|\badmit\b|(?m:^\s*axiom\s)|native_decide|bv_decide|implemented_by|\bunsafe\s|maxHeartbeats\s+0\b`)
 
 func stripLeanComments(s string) string {
